@@ -85,11 +85,13 @@ func workerMain() {
 			Fmts  []string `json:"fmts"`
 			Facts bool     `json:"facts"`
 			Oracle bool    `json:"oracle"`
+			Reps   int     `json:"reps"`
 		}
 		if err := dec.Decode(&req); err != nil {
 			return
 		}
 		res := doJob(req.Job, req.Fmts, req.Facts, req.Oracle)
+		checkRepeat(req.Job, req.Reps, &res)
 		enc.Encode(res)
 		out.Flush()
 	}
@@ -118,6 +120,9 @@ func runOracles(job JobCfg, res *Result) {
 		for k, v := range checkImports(job, c, si.pkgPath) {
 			res.Checks[k] = v
 		}
+		if d := checkSolo(job, c); d != "" && res.Checks["C20"] == "" {
+			res.Checks["C20"] = d
+		}
 	}
 	if noop, ok := res.Runs["noop"]; ok && noop.Err == "" && noop.Panic == "" {
 		gi, have := res.Runs["goimports"]
@@ -125,4 +130,21 @@ func runOracles(job JobCfg, res *Result) {
 			res.Checks["C16"] = d
 		}
 	}
+}
+
+// checkRepeat is the C14 oracle: fresh generator instances must reproduce the bytes.
+func checkRepeat(job JobCfg, reps int, res *Result) {
+	first, ok := res.Runs["noop"]
+	if !ok || reps <= 0 || first.Panic != "" {
+		return
+	}
+	for i := 0; i < reps; i++ {
+		again := runMoq(job, "noop")
+		if again.Out != first.Out || again.Err != first.Err {
+			res.Checks["C14"] = fmt.Sprintf("repetition %d differs from the first run (len %d vs %d, err %q vs %q)", i+1, len(again.Out), len(first.Out), again.Err, first.Err)
+			res.Runs["noop-rep"] = again
+			return
+		}
+	}
+	res.Checks["C14-reps"] = ""
 }
